@@ -167,6 +167,16 @@ CLAIMED["C18"] = dict(cat="proof", ref="DESIGN.md §5 C18, §12",
    note="partial for the runtime: pre-emption inside C-level operations, the interpreter's real switch points, free-threaded builds and memory-model effects cannot be "
         "expressed in the model and are only sampled; one context switch per run (A parked, B complete) is the schedule family searched deterministically; F10 fixed",
    tech="generated effect table + Lean 4 interleaving theorem + forced-schedule search on real threads")
+CLAIMED["C19"] = dict(cat="proof", ref="DESIGN.md §5 C19, §12",
+   text="PARTIAL proof. Lean theorems about _inject_schema (model Load.inject), for every raw schema: c19_reference_resolution (a reference is resolved against the "
+        "namespace in effect exactly as parse_schema resolves it and is replaced iff it denotes the loaded definition), c19_record_namespace, c19_inject_first_use (among "
+        "union branches / record fields exactly the first position containing the reference is rewritten, everything after it untouched), c19_inject_absent_unchanged, "
+        "c19_inject_at_most_once. The iteration parse -> load -> inject -> parse, load_schema_ordered and the missing-file error are checked on the implementation: random "
+        "acyclic dependency graphs (diamonds, repeated use, several namespaces, qualified and relative spellings, references from fields / items / values / union branches) "
+        "written one type per file, compared (canonical form, bytes and values of data) with an independent first-use inliner; every single file removed.",
+   note="composition through the load loop observed, not proved; files are real files in a scratch directory (removed after the run); model==implementation of _inject_schema "
+        "observed by correspondence",
+   tech="Lean 4 step theorems on the injection function + independent inliner against the implementation")
 PENDING = {}
 
 def main():
